@@ -196,6 +196,127 @@ def return_paths(fi):
     return withv, bare, fall
 
 
+def element_of(fi, name):
+    """The sequence expression (ast) whose elements the plain local `name` runs over as a for-loop target:
+    for x in X / for i, x in enumerate(X) / for a, b in zip(A, B) (also under enumerate);  None otherwise."""
+    for loop in ast.walk(fi.node):
+        if not isinstance(loop, ast.For):
+            continue
+        def walk(tg, it):
+            if isinstance(tg, ast.Name):
+                return it if tg.id == name else None
+            if isinstance(tg, ast.Tuple) and isinstance(it, ast.Call) and isinstance(it.func, ast.Name):
+                if it.func.id == "enumerate" and len(tg.elts) == 2 and len(it.args) >= 1:
+                    return walk(tg.elts[1], it.args[0])
+                if it.func.id == "zip" and len(tg.elts) == len(it.args):
+                    for e, a in zip(tg.elts, it.args):
+                        r = walk(e, a)
+                        if r is not None:
+                            return r
+            return None
+        r = walk(loop.target, loop.iter)
+        if r is not None:
+            return r
+    return None
+
+
+def positional_subst(fi, t, tm):
+    """Replace every plain name in term t that a loop header binds to a positioned element (see positional_term) by that element."""
+    if isinstance(t, tuple) and len(t) == 2 and t[0] == "n":
+        return positional_term(fi, t[1], tm) or t
+    if isinstance(t, tuple):
+        return tuple(positional_subst(fi, x, tm) for x in t)
+    return t
+
+
+class _Stub:
+    """minimal FuncInfo look-alike for a synthetic function (used by block_summaries)"""
+    def __init__(self, node, fi):
+        self.node = node
+        self.params = list(fi.params)
+        self.self_name = fi.self_name
+        self.cls = fi.cls
+        self.module = fi.module
+        self.qual = fi.qual + "::<block>"
+        self.name = fi.name
+
+    def loc(self, node=None):
+        return "%s:%d" % (self.qual, getattr(node, "lineno", 0))
+
+
+def block_summaries(fi, stmts, is_sink):
+    """Path summaries of a loop-free block of `fi`: [(facts, value)] where value is the argument of the first statement for which
+    is_sink(stmt) returns an expression (e.g. the argument of `result.append(v)`), evaluated with the block's local assignments
+    substituted.  Implemented by copying the block into a synthetic function in which the sink statement returns its value."""
+    from .inline import _clone
+    body = []
+    for st in stmts:
+        body.append(_clone(st))
+
+    class T(ast.NodeTransformer):
+        def generic_visit(self, node):
+            for f in ("body", "orelse", "finalbody"):
+                v = getattr(node, f, None)
+                if isinstance(v, list) and v and isinstance(v[0], ast.stmt):
+                    new = []
+                    for x in v:
+                        e = is_sink(x)
+                        if e is not None:
+                            new.append(ast.copy_location(ast.Return(value=e), x))
+                        else:
+                            new.append(self.generic_visit(x))
+                    setattr(node, f, new)
+            return node
+    fn = ast.FunctionDef(name="_block", args=ast.arguments(posonlyargs=[], args=[], kwonlyargs=[], kw_defaults=[], defaults=[]), body=body,
+                         decorator_list=[], returns=None, lineno=getattr(stmts[0], "lineno", 1), col_offset=0)
+    if hasattr(fn, "type_params"):
+        fn.type_params = []
+    T().generic_visit(fn)
+    ast.fix_missing_locations(fn)
+    for parent in ast.walk(fn):
+        for ch in ast.iter_child_nodes(parent):
+            if not isinstance(ch, (ast.expr_context, ast.operator, ast.unaryop, ast.boolop, ast.cmpop)):
+                ch._parent = parent
+    fn._parent = None
+    return path_summaries(_Stub(fn, fi))
+
+
+def positional_term(fi, name, tm):
+    """If the plain local `name` is bound by a for-loop target to the element at a known position of a sequence, the term
+    ("s", <sequence term>, <index term>) of that element, else None.  Understood loop headers:
+        for i, x in enumerate(X)                        x -> X[i]
+        for i, (l, r) in enumerate(zip(A[:-1], A[1:]))  l -> A[i], r -> A[i + 1]      (slices with constant start)
+        for i, (a, b) in enumerate(zip(A, B))           a -> A[i], b -> B[i]"""
+    for loop in ast.walk(fi.node):
+        if not isinstance(loop, ast.For):
+            continue
+        tg, it = loop.target, loop.iter
+        if not (isinstance(tg, ast.Tuple) and len(tg.elts) == 2 and isinstance(tg.elts[0], ast.Name) and isinstance(it, ast.Call)
+                and isinstance(it.func, ast.Name) and it.func.id == "enumerate" and len(it.args) == 1):
+            continue
+        idx = ("n", tg.elts[0].id)
+        inner_t, inner_it = tg.elts[1], it.args[0]
+
+        def at(seq_ast, index_term):
+            # X[c:] [i] == X[i + c];  X[:-k][i] == X[i]
+            if isinstance(seq_ast, ast.Subscript) and isinstance(seq_ast.slice, ast.Slice) and seq_ast.slice.step is None:
+                lo = seq_ast.slice.lower
+                if lo is None or (isinstance(lo, ast.Constant) and lo.value == 0):
+                    return ("s", tm.term(seq_ast.value), index_term)
+                if isinstance(lo, ast.Constant) and isinstance(lo.value, int) and lo.value > 0:
+                    return ("s", tm.term(seq_ast.value), ("op", "Add", tuple(sorted((index_term, ("c", repr(lo.value))), key=repr))))
+                return None
+            return ("s", tm.term(seq_ast), index_term)
+        if isinstance(inner_t, ast.Name) and inner_t.id == name:
+            return at(inner_it, idx)
+        if isinstance(inner_t, ast.Tuple) and isinstance(inner_it, ast.Call) and isinstance(inner_it.func, ast.Name) and inner_it.func.id == "zip" \
+                and len(inner_it.args) == len(inner_t.elts):
+            for k, e in enumerate(inner_t.elts):
+                if isinstance(e, ast.Name) and e.id == name:
+                    return at(inner_it.args[k], idx)
+    return None
+
+
 def path_summaries(fi, max_paths=200):
     """Loop-free functions only: [(facts, returned term)] over all entry-to-return paths, with plain locals substituted by the
     terms assigned to them along the path (temporaries, merged / split returns and branch order do not matter).  `facts` is the
